@@ -242,6 +242,8 @@ func runCheck(o CheckOpts) int {
 			ev.Covers++
 			if res.Status == "sat" {
 				ev.CoversSat++
+			} else if res.Status != "unsat" {
+				ev.CoversUnknown++ // quantified axioms: the solver cannot certify sat, but found no contradiction
 			} else {
 				// a contradictory precondition is a broken check, not a verdict
 				violations++
@@ -279,7 +281,7 @@ func runCheck(o CheckOpts) int {
 		reason := res.Status
 		confirmed := false
 		var rp string
-		if res.Status == "sat" {
+		if res.Status == "sat" || (res.Model != "" && adapterFor(o.Verif, ob.Func) != "") {
 			rp, confirmed = replayModel(o, ob)
 		} else {
 			rp = writeReplay(o, ob.Name, "solver answered "+res.Status+" "+fmt.Sprint(res.All)+"\n"+res.Output, ob)
@@ -330,7 +332,7 @@ type Evidence struct {
 	Obligations      int
 	Discharged       int
 	OtherObligations int
-	Covers, CoversSat int
+	Covers, CoversSat, CoversUnknown int
 	BySolver         map[string]int
 	SolverSeconds    float64
 	Samples          []any
@@ -387,6 +389,7 @@ func (ev *Evidence) write(path string) error {
 		"samples":                 ev.Samples,
 		"covers":                  ev.Covers,
 		"covers_sat":              ev.CoversSat,
+		"covers_not_refuted":      ev.CoversUnknown,
 		"untagged_obligations_not_counted": ev.OtherObligations,
 		"known_findings":          ev.KnownFindings,
 		"not_decided":             extra.NotDecided,
